@@ -399,6 +399,59 @@ def run(ctx):
                                            "nothing is freed during a history, so every allocation logged for a buffer is live"])
 
 
+# ------------------------------------------------------------------ C06 over reference histories
+def c06_histories(ctx, n, nops, shards):
+    """C06 (decoding is a function of the bytes) on objects holding references: after every step of a
+    history every object is read through its long-lived handle and through a view rebuilt from
+    (buffer, offset); the two decodings of the same bytes must agree.  Returns ([(sig, what, replay)], coverage)."""
+    rng = random.Random(ctx.seed + 606)
+    cases = [gen_case(rng, nops, "C08") for _ in range(n)]
+    sh = (len(cases) + shards - 1) // shards
+    results = []
+    for r in run_impl_parallel(ctx, "refs", [{"cases": cases[i:i + sh]} for i in range(0, len(cases), sh)]):
+        results += r["results"]
+    bysig = {}; nreads = 0
+    for i, (c, r) in enumerate(zip(cases, results)):
+        if r.get("stage") or "steps" not in r:
+            continue
+        for k, (op, st) in enumerate(zip(c["ops"], r["steps"])):
+            if not st["ok"]:
+                break
+            kind = op["op"] + ("-" + op["src"]["kind"] if op["op"] == "bind" else "")
+            bad = None
+            for nm, o in st["objs"].items():
+                if "read_exc" in o: continue
+                nreads += 1
+                if "view_exc" in o:
+                    bad = ("C06/refs/fresh-view-raises-after-%s" % kind, "object %s reads through its handle, a view rebuilt from (buffer, offset) raises %s" % (nm, o.get("view_exc")))
+                elif o.get("view_read") != o["read"]:
+                    bad = ("C06/refs/handle-and-fresh-view-decode-differently-after-%s" % kind, "object %s: the long-lived handle and a view rebuilt from (buffer, offset) read different values from the same bytes" % nm)
+                if bad: break
+            if bad:
+                if bad[0] not in bysig or k < bysig[bad[0]][2]:
+                    bysig[bad[0]] = (i, bad[1], k)
+                break
+    out = []
+    for sig, (i, what, k) in sorted(bysig.items()):
+        c = dict(cases[i]); c["ops"] = [dict(o) for o in c["ops"][:k + 1]]
+        out.append((sig, what, dict(kind="concrete", tie="K-REF", case=c, failing_step=k, how_to_replay="./check C08 --replay <this file>  (same history runner; C06 judges handle vs fresh view)")))
+    return out, dict(reference_histories=len(cases), handle_vs_view_reads=nreads)
+
+
+def c06_replay(ctx, r):
+    c = r["case"]
+    res = run_impl(ctx, "refs", {"cases": [c]})["results"][0]
+    bad = []
+    for k, st in enumerate(res.get("steps", [])):
+        for nm, o in st.get("objs", {}).items():
+            if "view_exc" in o or ("read" in o and o.get("view_read") != o["read"]):
+                bad.append((k, nm, o.get("read"), o.get("view_read", o.get("view_exc"))))
+    for b in bad[:3]:
+        print("step %d object %s: handle reads %s ; fresh view reads %s" % (b[0], b[1], json.dumps(b[2])[:300], json.dumps(b[3])[:300]))
+    print("REPRODUCED handle-vs-view difference" if bad else "not reproduced")
+    return 1 if bad else 0
+
+
 def replay(ctx, path):
     r = json.load(open(path))
     if r.get("kind") != "concrete":
